@@ -268,8 +268,20 @@ def np_sum(ex, st, args, kw, node):
 
 
 def np_where(ex, st, args, kw, node):
+    if len(args) == 3:
+        # np.where(cond, a, b): element-wise selection (a, b arrays of the same length or scalars)
+        cc = _content(st, args[0])
+        if cc is None or cc.nans is not None:
+            raise Unsupported('np.where condition')
+        ca, cb = _content(st, args[1]), _content(st, args[2])
+        if any(c is not None and c.nans is not None for c in (ca, cb)):
+            raise Unsupported('np.where over NaN-tracked arrays')
+        k = fresh('k', I)
+        x = ca.vals[k] if ca is not None else as_real(args[1]).val
+        y = cb.vals[k] if cb is not None else as_real(args[2]).val
+        return st.new_ref(ArrC(z3.Lambda([k], z3.If(cc.vals[k] != 0, x, y)), cc.n, None), 'where')
     if len(args) != 1:
-        raise Unsupported('np.where with three arguments')
+        raise Unsupported('np.where with two arguments')
     return ('where-mask', args[0])
 
 
